@@ -17,6 +17,7 @@ type Config struct {
 	MaxDepth   int
 	Kinds      map[string]bool // obligation kinds to generate
 	Modular    bool            // use contracts of callees that have one
+	CrossCheck bool // thorough tier: every SMT query goes to all back ends
 	PhaseB     func(fn *ssa.Function) bool
 	InScope    func(fn *ssa.Function) bool // repo function whose body may be inlined
 	CheckFrame bool
